@@ -22,6 +22,7 @@ import (
 	"go/constant"
 	"go/token"
 	"go/types"
+	"math"
 	"os"
 	"path/filepath"
 	"sort"
@@ -67,6 +68,7 @@ type lbArch struct {
 	fnFile    map[string]string
 	pure      map[string]string // translated pure helpers: lean name -> definition text
 	pureOrder []string
+	emu       *lbArch // the arch whose package is amd/emu (helpers called as emu.F from cdna3)
 }
 
 var lbInstFields = map[string][2]string{ // Go field -> (Lean field, Lean type)
@@ -74,6 +76,9 @@ var lbInstFields = map[string][2]string{ // Go field -> (Lean field, Lean type)
 	"Abs": {"u.abs", "BitVec 64"}, "Neg": {"u.neg", "BitVec 64"}, "Omod": {"u.omod", "BitVec 64"},
 	"Src0Sel": {"u.src0Sel", "BitVec 32"}, "Src1Sel": {"u.src1Sel", "BitVec 32"}, "DstSel": {"u.dstSel", "BitVec 32"},
 	"DstUnused": {"u.dstUnused", "BitVec 8"},
+	"OpSel":     {"u.opSel", "BitVec 64"}, "OpSelHi": {"u.opSelHi", "BitVec 64"},
+	"Src0Neg": {"u.src0Neg", "Bool"}, "Src1Neg": {"u.src1Neg", "Bool"}, "Src2Neg": {"u.src2Neg", "Bool"},
+	"Src0Abs": {"u.src0Abs", "Bool"}, "Src1Abs": {"u.src1Abs", "Bool"}, "Src2Abs": {"u.src2Abs", "Bool"},
 }
 
 var lbOperandField = map[string]string{"inst.Src0": "r.src0", "inst.Src1": "r.src1", "inst.Src2": "r.src2", "inst.Dst": "r.dstOld"}
@@ -204,6 +209,7 @@ type lbCtx struct {
 func (c *lbCtx) fail(n ast.Node, f string, args ...any) string { return c.t.fail(n, f, args...) }
 
 func (c *lbCtx) hooks() {
+	c.t.exprHook = c.floatHook
 	c.t.selHook = func(e *ast.SelectorExpr, env map[string]string) (string, bool) {
 		if id, ok := e.X.(*ast.Ident); ok && id.Name == "inst" {
 			if f, ok := lbInstFields[e.Sel.Name]; ok {
@@ -220,6 +226,9 @@ func (c *lbCtx) hooks() {
 		name := types.ExprString(e.Fun)
 		switch {
 		case name == "state.ReadOperand":
+			if c.mode == "uniform" && types.ExprString(e.Args[0]) == "inst.Src2" && types.ExprString(e.Args[1]) == "0" {
+				return "u.k2", true // the literal K of v_madak_f32 / v_fmamk_f32 / v_fmaak_f32 (a LiteralConstant operand)
+			}
 			if c.mode != "lane" {
 				return c.fail(e, "operand read outside a lane body"), true
 			}
@@ -259,10 +268,14 @@ func (c *lbCtx) hooks() {
 		case aluReinterpret[name]:
 			return "", false
 		}
-		// a pure helper of the same package: method `u.f(…)` or function `f(…)`
+		// a pure helper of the same package: method `u.f(…)` or function `f(…)`; or `emu.F(…)` from cdna3
 		fname := strings.TrimPrefix(name, "u.")
-		if fd, ok := c.a.funcs[fname]; ok && !strings.Contains(fname, ".") {
-			lean, err := c.a.pureFunc(fd)
+		owner := c.a
+		if strings.HasPrefix(fname, "emu.") && c.a.emu != nil && c.a.emu != c.a {
+			fname, owner = strings.TrimPrefix(fname, "emu."), c.a.emu
+		}
+		if fd, ok := owner.funcs[fname]; ok && !strings.Contains(fname, ".") {
+			lean, err := owner.pureFunc(fd)
 			if err != nil {
 				return c.fail(e, "helper %s: %v", fname, err), true
 			}
@@ -284,7 +297,20 @@ func (c *lbCtx) hooks() {
 	}
 }
 
+func lbZero(ty string) string {
+	switch ty {
+	case "Bool":
+		return "false"
+	case "Float32", "Float":
+		return "(" + ty + ".ofBits 0)"
+	}
+	return "(0#" + strings.TrimPrefix(ty, "BitVec ") + ")"
+}
+
 func lbLeanType(ty types.Type) (string, bool) {
+	if k := lbFloatKind(ty); k != 0 {
+		return lbFloatTy(k), true
+	}
 	w, _, ok := basicWS(ty)
 	if !ok {
 		return "", false
@@ -348,16 +374,14 @@ func (a *lbArch) pureFunc(fd *ast.FuncDecl) (string, error) {
 	pre := ""
 	for _, nt := range named { // named results start at zero
 		nm, ty, _ := strings.Cut(nt, ":")
-		val := "false"
-		if ty != "Bool" {
-			val = "(0#" + strings.TrimPrefix(ty, "BitVec ") + ")"
-		}
+		val := lbZero(ty)
 		env[nm] = nm + "_0"
 		pre += fmt.Sprintf("  let %s_0 : %s := %s\n", nm, ty, val)
 		c.named = append(c.named, nm)
 	}
 	body := pre + c.stmts(fd.Body.List, env, "  ")
 	if c.t.err != nil {
+		delete(a.pure, lean)
 		return "", c.t.err
 	}
 	a.pure[lean] = fmt.Sprintf("/-- %s -/\ndef %s %s : %s :=\n%s\n\n", a.relPos(fd), lean, strings.Join(params, " "), rty, body)
@@ -465,7 +489,7 @@ func (c *lbCtx) stmts(list []ast.Stmt, env map[string]string, ind string) string
 		}
 		var rhs string
 		if isOp {
-			rhs = t.binary(&ast.BinaryExpr{X: s.Lhs[0], Op: bop, Y: s.Rhs[0]}, env)
+			rhs = t.expr(&ast.BinaryExpr{X: s.Lhs[0], Op: bop, Y: s.Rhs[0]}, env)
 		} else {
 			rhs = t.expr(s.Rhs[0], env)
 		}
@@ -503,10 +527,7 @@ func (c *lbCtx) stmts(list []ast.Stmt, env map[string]string, ind string) string
 				if !ok {
 					return t.fail(s, "var %s of type %v", n.Name, t.info.Defs[n].Type())
 				}
-				val := "false"
-				if ty != "Bool" {
-					val = "(0#" + strings.TrimPrefix(ty, "BitVec ") + ")"
-				}
+				val := lbZero(ty)
 				if len(vs.Values) != 0 {
 					val = t.expr(vs.Values[i], env2)
 				}
@@ -696,6 +717,8 @@ type lbFn struct {
 	execVar string
 	vccVars map[string]bool
 	zeroVar map[string]bool
+	uniEnv  map[string]string // uniform locals defined before the loop: Go name -> Lean name
+	uniLets []string          // their `let` lines
 }
 
 type lbRefusal struct{ msg string }
@@ -707,6 +730,11 @@ func (f *lbFn) refuse(n ast.Node, format string, args ...any) {
 func (f *lbFn) clone() *lbFn {
 	g := *f
 	g.vccVars, g.zeroVar = map[string]bool{}, map[string]bool{}
+	g.uniEnv = map[string]string{}
+	for k, v := range f.uniEnv {
+		g.uniEnv[k] = v
+	}
+	g.uniLets = append([]string{}, f.uniLets...)
 	for k := range f.vccVars {
 		g.vccVars[k] = true
 	}
@@ -735,7 +763,11 @@ func lbIsPanic(s ast.Stmt) bool {
 func (f *lbFn) uniformCond(e ast.Expr) string {
 	c := &lbCtx{a: f.a, t: &aluTr{info: f.a.info, fset: f.a.fset}, mode: "uniform", leaf: &lbLeaf{}}
 	c.hooks()
-	s := c.t.expr(e, map[string]string{})
+	env := map[string]string{}
+	for k, v := range f.uniEnv {
+		env[k] = v
+	}
+	s := c.t.expr(e, env)
 	if c.t.err != nil {
 		f.refuse(e, "condition outside the lane loop is not a function of the instruction fields: %v", c.t.err)
 	}
@@ -789,6 +821,31 @@ func (f *lbFn) level(list []ast.Stmt) *lbTree {
 				case id != nil && rhs == "uint64(0)" && f.sunk[id.Name]:
 					f.zeroVar[id.Name] = true
 					continue
+				}
+			}
+			// a uniform local: a function of the instruction fields and of the literal operand
+			// `state.ReadOperand(inst.Src2, 0)` (v_madak / v_fmamk / v_fmaak: K)
+			if s.Tok == token.DEFINE && len(s.Lhs) == 1 && len(s.Rhs) == 1 {
+				if id, ok := s.Lhs[0].(*ast.Ident); ok {
+					c := &lbCtx{a: f.a, t: &aluTr{info: f.a.info, fset: f.a.fset}, mode: "uniform", leaf: &lbLeaf{}}
+					c.hooks()
+					env := map[string]string{}
+					for k, v := range f.uniEnv {
+						env[k] = v
+					}
+					val := c.t.expr(s.Rhs[0], env)
+					ty, okT := lbLeanType(f.a.info.TypeOf(s.Lhs[0]))
+					if c.t.err == nil && okT {
+						if _, dup := f.uniEnv[id.Name]; dup {
+							f.refuse(s, "uniform local %s defined twice", id.Name)
+						}
+						if f.uniEnv == nil {
+							f.uniEnv = map[string]string{}
+						}
+						f.uniEnv[id.Name] = "k_" + id.Name
+						f.uniLets = append(f.uniLets, fmt.Sprintf("let k_%s : %s := %s", id.Name, ty, val))
+						continue
+					}
 				}
 			}
 			f.refuse(s, "statement before the lane loop: %s", nodeString(s))
@@ -937,7 +994,17 @@ func (f *lbFn) loop(fs *ast.ForStmt, after []ast.Stmt) *lbLeaf {
 	if accVar != "" {
 		env[accVar] = "r.acc"
 	}
+	for k, v := range f.uniEnv {
+		if _, clash := env[k]; clash {
+			f.refuse(fs, "uniform local %s clashes with a loop variable", k)
+		}
+		env[k] = v
+		c.immut[k] = true
+	}
 	raw := c.stmts(fs.Body.List[1:], env, "  ")
+	for k := len(f.uniLets) - 1; k >= 0; k-- {
+		raw = "  " + f.uniLets[k] + "\n" + raw
+	}
 	if c.t.err != nil {
 		f.refuse(fs, "lane body outside the translated subset: %v", c.t.err)
 	}
@@ -974,6 +1041,25 @@ func lbReindent(s, ind string) string {
 
 func (a *lbArch) translate(h *lfHandler) (res *lbResult) {
 	res = &lbResult{arch: h.arch, name: h.name, file: h.file, line: h.line}
+	fd, ok := a.funcs[h.name]
+	if !ok {
+		fatalf("lanebody: %s %s: function not found in the type-checked package", h.arch, h.name)
+	}
+	cat, callees := a.category(fd, h)
+	if cat == "float" {
+		// try: integer skeleton + float data path as Lean Float32/Float; what does not translate stays `float`
+		if r := a.tryFloat(h, fd); r != nil {
+			return r
+		}
+	}
+	if cat != "" {
+		res.cov, res.callees = cat, callees
+		if cat == "wrapper" {
+			f := &lbFn{a: a, h: h, fd: fd}
+			res.raw = f.wrapper(fd.Body.List, "  ")
+		}
+		return res
+	}
 	defer func() {
 		if e := recover(); e != nil {
 			r, ok := e.(lbRefusal)
@@ -987,18 +1073,29 @@ func (a *lbArch) translate(h *lfHandler) (res *lbResult) {
 			res.cov = "refused"
 		}
 	}()
-	fd, ok := a.funcs[h.name]
-	if !ok {
-		fatalf("lanebody: %s %s: function not found in the type-checked package", h.arch, h.name)
-	}
-	if cat, callees := a.category(fd, h); cat != "" {
-		res.cov, res.callees = cat, callees
-		if cat == "wrapper" {
-			f := &lbFn{a: a, h: h, fd: fd}
-			res.raw = f.wrapper(fd.Body.List, "  ")
+	a.core(h, fd, res)
+	res.cov = "translated"
+	return res
+}
+
+func (a *lbArch) tryFloat(h *lfHandler, fd *ast.FuncDecl) (res *lbResult) {
+	res = &lbResult{arch: h.arch, name: h.name, file: h.file, line: h.line}
+	defer func() {
+		if e := recover(); e != nil {
+			r, ok := e.(lbRefusal)
+			if !ok {
+				panic(e)
+			}
+			fmt.Printf("NOTE lanebody: %s.%s stays in the float category: %s\n", h.arch, h.name, strings.TrimPrefix(r.msg, "lanebody: "))
+			res = nil
 		}
-		return res
-	}
+	}()
+	a.core(h, fd, res)
+	res.cov = "translatedF"
+	return res
+}
+
+func (a *lbArch) core(h *lfHandler, fd *ast.FuncDecl, res *lbResult) {
 	f := &lbFn{a: a, h: h, fd: fd, sunk: map[string]bool{}, vccVars: map[string]bool{}, zeroVar: map[string]bool{}}
 	ast.Inspect(fd.Body, func(n ast.Node) bool {
 		if ce, ok := n.(*ast.CallExpr); ok {
@@ -1019,14 +1116,13 @@ func (a *lbArch) translate(h *lfHandler) (res *lbResult) {
 		}
 	})
 	if len(loops) == 0 {
-		fatalf("lanebody: %s %s (%s:%d): no lane loop on any path (unknown shape)", h.arch, h.name, h.file, h.line)
+		f.refuse(fd, "no lane loop on any path (unknown shape)")
 	}
-	res.cov = "translated"
 	res.guard, res.accInit, res.sink = loops[0].guard, loops[0].accInit, loops[0].sink
 	res.msrc = "none"
 	for _, l := range loops {
 		if l.guard != res.guard || l.accInit != res.accInit || l.sink != res.sink {
-			fatalf("lanebody: %s %s (%s:%d): the lane loops on different instruction-field paths disagree on guard / accumulator / write-back", h.arch, h.name, h.file, h.line)
+			f.refuse(fd, "the lane loops on different instruction-field paths disagree on guard / accumulator / write-back")
 		}
 		// which 64-bit input is used as a lane mask (a declaration only: Lean proves `LaneUniform` against it)
 		m := "none"
@@ -1040,7 +1136,7 @@ func (a *lbArch) translate(h *lfHandler) (res *lbResult) {
 		}
 		if m != "none" {
 			if res.msrc != "none" && res.msrc != m {
-				fatalf("lanebody: %s %s (%s:%d): different mask sources on different paths", h.arch, h.name, h.file, h.line)
+				f.refuse(fd, "different mask sources on different paths")
 			}
 			res.msrc = m
 		}
@@ -1060,7 +1156,6 @@ func (a *lbArch) translate(h *lfHandler) (res *lbResult) {
 	if tree.leaf != nil {
 		res.ok = "  true"
 	}
-	return res
 }
 
 // lbAccUpdates returns the lines of a raw body that rebind the accumulator (`let <acc>_k : BitVec 64 := …`)
@@ -1099,6 +1194,7 @@ func genLaneBodies(handlers []*lfHandler) {
 		}
 		archs[ar.name] = a
 	}
+	archs["gcn3"].emu, archs["cdna3"].emu = archs["gcn3"], archs["gcn3"]
 	var results []*lbResult
 	var memFacts []*lbMemFact
 	for _, h := range handlers {
@@ -1120,7 +1216,7 @@ func genLaneBodies(handlers []*lfHandler) {
 	idx := map[string]int{}
 	n := 0
 	for _, r := range results {
-		if r.cov != "translated" {
+		if r.cov != "translated" && r.cov != "translatedF" {
 			continue
 		}
 		fmt.Fprintf(&b, "/-- %s:%d -/\ndef raw_%s_%s (u : Uni) (r : RawIn) : RawOut :=\n%s\n\n", r.file, r.line, r.arch, r.name, r.raw)
@@ -1144,7 +1240,7 @@ func genLaneBodies(handlers []*lfHandler) {
 	b.WriteString("/-- every translated handler -/\ndef laneHandlers : List LaneHandler := [\n")
 	k := 0
 	for _, r := range results {
-		if r.cov != "translated" {
+		if r.cov != "translated" && r.cov != "translatedF" {
 			continue
 		}
 		k++
@@ -1164,8 +1260,8 @@ func genLaneBodies(handlers []*lfHandler) {
 		}
 		cov := "." + r.cov
 		switch r.cov {
-		case "translated":
-			cov = fmt.Sprintf(".translated %d", idx[r.arch+"."+r.name])
+		case "translated", "translatedF":
+			cov = fmt.Sprintf(".%s %d", r.cov, idx[r.arch+"."+r.name])
 		case "wrapper":
 			cs := append([]string{}, r.callees...)
 			sort.Strings(cs)
@@ -1377,4 +1473,181 @@ func lbWriteMemFacts(b *strings.Builder, facts []*lbMemFact) {
 		fmt.Fprintf(b, "  { arch := %s, name := %s, accesses := [%s], callees := %s }%s\n", leanStr(f.arch), leanStr(f.name), strings.Join(as, ", "), leanStrList(f.callees), sep)
 	}
 	b.WriteString("]\n\n")
+}
+
+// ---------------------------------------------------------------- float32 / float64 data paths
+//
+// Float values are translated to Lean's `Float32` / `Float` (IEEE binary32/64, opaque to the kernel): the
+// proofs about a float handler (`LaneUniform`) concern only how it uses the loop variable, the masks and
+// the accumulator; its arithmetic is an uninterpreted function of the lane's own operand values. These
+// bodies are NOT tied by the `c06 body` correspondence (NaN payloads, libm vs Go's math package).
+
+func lbFloatKind(ty types.Type) int { // 0 none, 32, 64
+	if ty == nil {
+		return 0
+	}
+	b, ok := ty.Underlying().(*types.Basic)
+	if !ok {
+		return 0
+	}
+	switch b.Kind() {
+	case types.Float32:
+		return 32
+	case types.Float64, types.UntypedFloat:
+		return 64
+	}
+	return 0
+}
+
+func lbFloatTy(k int) string {
+	if k == 32 {
+		return "Float32"
+	}
+	return "Float"
+}
+
+var lbFloatFromBits = map[string]int{"math.Float32frombits": 32, "asFloat32": 32, "emu.AsFloat32": 32, "AsFloat32": 32,
+	"math.Float64frombits": 64, "asFloat64": 64, "emu.AsFloat64": 64, "AsFloat64": 64}
+var lbFloatToBits = map[string]int{"math.Float32bits": 32, "float32ToBits": 32, "emu.Float32ToBits": 32, "Float32ToBits": 32,
+	"math.Float64bits": 64, "float64ToBits": 64, "emu.Float64ToBits": 64, "Float64ToBits": 64}
+
+// float64 -> float64 functions of Go's math package and their Lean stand-ins (C06.GoF.*)
+var lbMath1 = map[string]string{"math.Abs": "Float.abs", "math.Sqrt": "Float.sqrt", "math.Log2": "Float.log2", "math.Exp2": "Float.exp2",
+	"math.Trunc": "C06.GoF.trunc", "math.RoundToEven": "C06.GoF.roundToEven", "math.Floor": "Float.floor", "math.Ceil": "Float.ceil",
+	"math.Log": "Float.log", "math.Exp": "Float.exp", "math.Sin": "Float.sin", "math.Cos": "Float.cos"}
+var lbMath2 = map[string]string{"math.Pow": "Float.pow", "math.Min": "C06.GoF.min", "math.Max": "C06.GoF.max"}
+
+func (c *lbCtx) floatHook(e ast.Expr, env map[string]string) (string, bool) {
+	t := c.t
+	info := t.info
+	if tv, ok := info.Types[e]; ok && tv.Value != nil && lbFloatKind(tv.Type) != 0 {
+		// a float constant: exact bits
+		f64, _ := constant.Float64Val(constant.ToFloat(tv.Value))
+		if lbFloatKind(tv.Type) == 32 {
+			return fmt.Sprintf("(Float32.ofBits %d)", math.Float32bits(float32(f64))), true
+		}
+		return fmt.Sprintf("(Float.ofBits %d)", math.Float64bits(f64)), true
+	}
+	switch x := e.(type) {
+	case *ast.BinaryExpr:
+		kx, ky := lbFloatKind(info.TypeOf(x.X)), lbFloatKind(info.TypeOf(x.Y))
+		if tv, ok := info.Types[e]; ok && tv.Value != nil && lbFloatKind(tv.Type) != 0 {
+			break // float constant expression: literal below
+		}
+		if kx == 0 && ky == 0 {
+			return "", false
+		}
+		a, b := t.expr(x.X, env), t.expr(x.Y, env)
+		switch x.Op {
+		case token.ADD:
+			return fmt.Sprintf("(%s + %s)", a, b), true
+		case token.SUB:
+			return fmt.Sprintf("(%s - %s)", a, b), true
+		case token.MUL:
+			return fmt.Sprintf("(%s * %s)", a, b), true
+		case token.QUO:
+			return fmt.Sprintf("(%s / %s)", a, b), true
+		case token.LSS:
+			return fmt.Sprintf("(decide (%s < %s))", a, b), true
+		case token.GTR:
+			return fmt.Sprintf("(decide (%s < %s))", b, a), true
+		case token.LEQ:
+			return fmt.Sprintf("(decide (%s ≤ %s))", a, b), true
+		case token.GEQ:
+			return fmt.Sprintf("(decide (%s ≤ %s))", b, a), true
+		case token.EQL:
+			return fmt.Sprintf("(%s == %s)", a, b), true
+		case token.NEQ:
+			return fmt.Sprintf("(%s != %s)", a, b), true
+		}
+		return t.fail(e, "float operator %s", x.Op), true
+	case *ast.UnaryExpr:
+		if lbFloatKind(info.TypeOf(x.X)) == 0 {
+			return "", false
+		}
+		if tv, ok := info.Types[e]; ok && tv.Value != nil {
+			break
+		}
+		switch x.Op {
+		case token.SUB:
+			return "(-" + t.expr(x.X, env) + ")", true
+		case token.ADD:
+			return t.expr(x.X, env), true
+		}
+		return t.fail(e, "float unary %s", x.Op), true
+	case *ast.CallExpr:
+		if tv, ok := info.Types[e]; ok && tv.Value != nil && lbFloatKind(tv.Type) != 0 {
+			break
+		}
+		if tv, ok := info.Types[x.Fun]; ok && tv.IsType() && len(x.Args) == 1 { // conversion
+			dk, sk := lbFloatKind(tv.Type), lbFloatKind(info.TypeOf(x.Args[0]))
+			if dk == 0 && sk == 0 {
+				return "", false
+			}
+			arg := t.expr(x.Args[0], env)
+			switch {
+			case dk != 0 && sk != 0:
+				switch {
+				case dk == sk:
+					return arg, true
+				case dk == 64:
+					return "(Float32.toFloat " + arg + ")", true
+				default:
+					return "(Float.toFloat32 " + arg + ")", true
+				}
+			case dk != 0: // integer -> float
+				w, sg, ok := basicWS(info.TypeOf(x.Args[0]))
+				if !ok || w == 1 {
+					return t.fail(e, "conversion of %v to a float", info.TypeOf(x.Args[0])), true
+				}
+				conv := "BitVec.toNat"
+				of := lbFloatTy(dk) + ".ofNat"
+				if sg {
+					conv, of = "BitVec.toInt", lbFloatTy(dk)+".ofInt"
+				}
+				return fmt.Sprintf("(%s (%s %s))", of, conv, arg), true
+			default: // float -> integer: truncation toward zero (out-of-range values are implementation specific in Go)
+				w, sg, ok := basicWS(tv.Type)
+				if !ok || w == 1 {
+					return t.fail(e, "conversion of a float to %v", tv.Type), true
+				}
+				if sk == 32 {
+					arg = "(Float32.toFloat " + arg + ")"
+				}
+				return fmt.Sprintf("(C06.GoF.toInt %d %s %s)", w, leanBool(sg), arg), true
+			}
+		}
+		name := types.ExprString(x.Fun)
+		if k, ok := lbFloatFromBits[name]; ok && len(x.Args) == 1 {
+			return fmt.Sprintf("(%s.ofBits (UInt%d.ofBitVec %s))", lbFloatTy(k), k, t.expr(x.Args[0], env)), true
+		}
+		if k, ok := lbFloatToBits[name]; ok && len(x.Args) == 1 {
+			return fmt.Sprintf("(%s.toBits %s).toBitVec", lbFloatTy(k), t.expr(x.Args[0], env)), true
+		}
+		if f, ok := lbMath1[name]; ok && len(x.Args) == 1 {
+			return fmt.Sprintf("(%s %s)", f, t.expr(x.Args[0], env)), true
+		}
+		if f, ok := lbMath2[name]; ok && len(x.Args) == 2 {
+			return fmt.Sprintf("(%s %s %s)", f, t.expr(x.Args[0], env), t.expr(x.Args[1], env)), true
+		}
+		switch name {
+		case "math.IsNaN":
+			return "(Float.isNaN " + t.expr(x.Args[0], env) + ")", true
+		case "math.IsInf":
+			return fmt.Sprintf("(C06.GoF.isInf %s %s)", t.expr(x.Args[0], env), t.expr(x.Args[1], env)), true
+		case "math.Signbit":
+			return "(C06.GoF.signbit " + t.expr(x.Args[0], env) + ")", true
+		case "math.Inf":
+			return "(C06.GoF.inf " + t.expr(x.Args[0], env) + ")", true
+		case "math.NaN":
+			return "C06.GoF.nan", true
+		}
+		if strings.HasPrefix(name, "math.") {
+			return t.fail(e, "call of %s (no Lean stand-in)", name), true
+		}
+		return "", false
+	default:
+		return "", false
+	}
+	return "", false
 }
